@@ -314,6 +314,9 @@ def twin_probe(unit, max_fns=40):
             key = it["emitted_as"] + "@" + it["container"]
         m2 = {"items": []}
         text = extract.process(tmpl, REPO, m2, twin=key)
+        # a raised resource limit only makes the solver search longer for a proof of `false`: probes run at the default limit
+        # (running out of resources is a rejection, too)
+        text = re.sub(r"#\[verifier::rlimit\(\d+\)\]", "", text)
         dst = os.path.join(OUT, "%s__twin%d.rs" % (unit, k))
         with open(dst, "w") as f:
             f.write(text)
